@@ -377,7 +377,7 @@ pub const SHARD_HEADER: &str = "From Coq Require Import List ZArith.\nImport Lis
 
 // -------------------------------------------------------------------- generators
 
-pub const STRS_V: [&str; 7] = ["", "x", "ab", "abcd", "abcde", "é", "abcé"]; // the last one panics in the table normaliser (byte slice inside a character)
+pub const STRS_V: [&str; 7] = ["", "x", "ab", "abcd", "abcde", "é", "abcé"]; // the last one is cut to "abc" by the table (boundary below byte 4)
 pub const STRS_C: [&str; 7] = ["", "a", "ab", "abc", "abcd", "é", "abé"];
 
 pub fn gen_int(r: &mut Rng) -> Lit {
@@ -508,30 +508,13 @@ pub fn gen_drop_index(r: &mut Rng) -> Op {
 }
 
 /// does the table store this literal row differently from what `insert_row` records?  (harness-side
-/// classifier only)  VARCHAR(4) values longer than 4 bytes are truncated by the table after the
-/// change was recorded; a CHAR(3) literal longer than 3 bytes is cut by `coerce_value` on a character
-/// boundary at or below byte 3, which can leave fewer than 3 characters that the table then pads
+/// classifier only)  VARCHAR(4) values longer than 4 bytes are cut by the table after the change was
+/// recorded; CHAR(3) literals are brought to exactly 3 characters by `coerce_value` already
 pub fn lit_row_normalised(t: i64, row: &[Lit]) -> bool {
     if t != 0 || row.len() != 5 {
         return false;
     }
-    let v_long = matches!(&row[3], Lit::Str(s) if s.len() > 4);
-    let c_changed = match &row[4] {
-        Lit::Str(s) => {
-            let coerced: String = if s.len() > 3 {
-                let mut end = 3;
-                while !s.is_char_boundary(end) {
-                    end -= 1;
-                }
-                s[..end].to_string()
-            } else {
-                format!("{:3}", s)
-            };
-            coerced.chars().count() != 3
-        }
-        _ => false,
-    };
-    v_long || c_changed
+    matches!(&row[3], Lit::Str(s) if s.len() > 4)
 }
 
 pub fn api_row_normalised(t: i64, row: &[SqlValue]) -> bool {
